@@ -47,13 +47,12 @@ Theorem C24_exempt_set_exact :
 Proof. exact (exempt_set_exact gen_exempt_recognised gen_exempt_paths eq_refl eq_refl). Qed.
 Print Assumptions C24_exempt_set_exact.
 
-(* PENDING-DEEP
-( ** A request whose URL path is an exempt path can only reach the handler
+(** A request whose URL path is an exempt path can only reach the handler
     registered for exactly that path -- a probe, the splash page or the logo,
     all outside the endpoint groups -- whatever the spelling of the escaped
     path, the method, and the flags.  ([unescape (q_epath q) = Some (q_path q)]
     is what net/url guarantees about EscapedPath; the harness checks it on
-    every request.) * )
+    every request.) *)
 Theorem C24_exempt_paths_reach_only_their_handlers :
   forall (f : flags) (tc : bool) (valid : str -> bool) (q : request) (rest : str),
     q_epath q = SLASH :: rest ->
@@ -63,7 +62,6 @@ Theorem C24_exempt_paths_reach_only_their_handlers :
               r_pattern r = q_path q /\ r_group r = GAlways /\ r_disabled r = false.
 Proof. exact exempt_dispatch. Qed.
 Print Assumptions C24_exempt_paths_reach_only_their_handlers.
-*)
 
 (** Whatever is dispatched is registered under the current flags: a
     registration of a group that is switched off is the disabled handler
@@ -77,20 +75,39 @@ Theorem C24_disabled_groups_only_reach_disabled_handler :
 Proof. exact dispatch_respects_flags. Qed.
 Print Assumptions C24_disabled_groups_only_reach_disabled_handler.
 
-(* PENDING-DEEP
-( ** Every path in the namespace of a disabled group -- /api/..., /debug/...,
-    /agents/... and the remote-control endpoints, in any spelling -- is
-    answered by the disabled handler or by a redirect, never by a real
-    handler, never by the splash page. * )
+(** Every request whose routed path (the escaped path, cleaned unless the
+    method is CONNECT, cut into decoded segments) lies in the namespace of a
+    switched-off group -- i.e. matches one of the group's disabled
+    registrations -- is redirected or answered by a disabled registration of
+    that group (404, nothing else): no handler of another group, no splash
+    page, no more specific pattern shadows it. *)
 Theorem C24_disabled_namespace_404 :
-  forall (f : flags) (cn : bool) (epath : str) (g : group),
-    group_on f g = false ->
-    in_namespace g (if cn then epath else clean_path epath) = true ->
+  forall (f : flags) (cn : bool) (epath : str) (g : group) (segs : list str) (tr : bool),
+    route_segs (if cn then epath else clean_path epath) = Some (segs, tr) ->
+    in_namespace_segs f g segs tr = true ->
     mux (table_of entries f) cn epath = MRedirect \/
     exists r, mux (table_of entries f) cn epath = MDispatch r /\ r_disabled r = true /\ r_group r = g.
 Proof. exact disabled_namespace_404. Qed.
 Print Assumptions C24_disabled_namespace_404.
-*)
+
+(** The namespaces in the words of the configuration: with the group switched
+    off, everything under /api/, everything under /debug/, everything under
+    /agents/ and each of the remote-control paths lies in its group's
+    namespace ([extends rest tr]: something follows the first segment, at
+    least a trailing slash). *)
+Theorem C24_namespaces_in_words :
+  (forall f rest tr, f_dashboard f = false -> extends rest tr ->
+     in_namespace_segs f GDashboard (lit "api" :: rest) tr = true) /\
+  (forall f rest tr, f_pprof f = false -> extends rest tr ->
+     in_namespace_segs f GPprof (lit "debug" :: rest) tr = true) /\
+  (forall f rest tr, f_remote f = false -> extends rest tr ->
+     in_namespace_segs f GRemote (lit "agents" :: rest) tr = true) /\
+  (forall f segs, f_remote f = false -> In segs remote_exact ->
+     in_namespace_segs f GRemote segs false = true).
+Proof.
+  exact (conj dashboard_namespace (conj pprof_namespace (conj remote_agents_namespace remote_exact_namespace))).
+Qed.
+Print Assumptions C24_namespaces_in_words.
 
 (** Concrete requests (non-vacuity of the hypotheses above, and the corner
     cases of token presentation). *)
